@@ -20,6 +20,7 @@
 //   set <o> <t> <k> <v>   (tsd)  -> "ok"          as_dict().begin_mutation(t).set(k, v)
 //   del <o> <t> <k>       (tsd)  -> "1"|"0"       ...erase(k)
 //   touch  <o> <t>        (tsd, tsdn) -> "ok"     as_dict().begin_mutation(t).touch()              (no membership change)
+//   clear  <o> <t>        (tsd, tsdn) -> "ok"     as_dict().begin_mutation(t).clear()               (touch, then erase of every live key)
 //   empty  <o> <t>        (tsd, tsdn) -> "ok"     apply_delta(out[o].view(t), <empty delta>)        (no membership change)
 //   setall <o> <t> <m>    (tsd)  -> "1"|"0"       as_dict().begin_mutation(t).copy_value_from(map)  m = "-" (empty) | k:v,k:v
 //   bindK  <i> <o> <t>    (tsd, tsdn) -> "ok"     KEY-SET input i (a TSS<Int> input, unbound): bind_output(out[o].as_dict().key_set())
@@ -326,14 +327,15 @@ int main()
                 auto       mutation = dict.begin_mutation(t);
                 std::cout << (mutation.erase(key.view()) ? "1" : "0") << "\n";
             }
-            else if (op == "touch" && w.size() == 3 && world && (world->kind == Kind::TSD || world->kind == Kind::TSDN))
+            else if ((op == "touch" || op == "clear") && w.size() == 3 && world &&
+                     (world->kind == Kind::TSD || world->kind == Kind::TSDN))
             {
                 const auto o = out_index(w[1]);
                 const auto t = cycle(w[2]);
                 auto       view     = world->outputs[o]->view(t);
                 auto       dict     = view.as_dict();
                 auto       mutation = dict.begin_mutation(t);
-                mutation.touch();
+                if (op == "touch") { mutation.touch(); } else { mutation.clear(); }
                 std::cout << "ok\n";
             }
             else if (op == "empty" && w.size() == 3 && world && (world->kind == Kind::TSD || world->kind == Kind::TSDN))
